@@ -254,3 +254,42 @@ def run(rep, tier):
                         rep.ok("C12.R4", f, "%s uses the slot transiently (%s at %s)" % (f.qname.rsplit("::", 1)[-1], k, loc_of(ev)))
     if nuse < 2:
         raise AnalysisBroken("C12.R4: fewer than two uses of coroutine_self::local_self found (files spelling it: %s)" % (cpps + hdrs))
+
+    # ---- R3 (continued): the pseudo class 'current' ("the creator's class") is resolved while the creating task is
+    # still the running task, i.e. before the task description is staged or the thread object is created - a staged
+    # task is converted later by a worker's scheduling loop, where 'current' would mean that loop's default (small)
+    from engine.kinds import eval_walk
+    QF = facts(rep, lib("thread_pools", "src/scheduled_thread_pool.cpp"), [r"^pika::threads::detail::(thread_queue|thread_queue_mc)::create_thread$"])
+    cts = [f for f in QF.fns if f.parent == -1 and (not f.pattern or not any((g.qname == f.qname and not g.pattern) for g in QF.fns))]
+    if len(cts) < 2:
+        raise AnalysisBroken("thread_queue(_mc)::create_thread not found")
+    CUR = "data.stacksize == pika::execution::thread_stacksize::current"
+    for f in cts:
+        is_res = lambda e: e.get("k") == "write" and P(e["lhs"]) == "data.stacksize" and "get_self_stacksize_enum" in T(e.get("rhs"))
+        is_sink = lambda e: (e.get("k") == "call" and callee_short(e) == "create_thread_object") or \
+            (e.get("k") == "call" and callee_short(e) == "push" and "new_task" in P(e.get("recv"))) or \
+            (e.get("k") == "new" and "data" in T(e))
+        leaves = set(cond_atoms(blk.cond)[0] for blk in f.blocks.values() if blk.cond is not None)
+        if CUR not in leaves and not any("thread_stacksize::current" in l for l in leaves):
+            rep.bad("C12.R3", f, f.loc, "current-unresolved:" + f.qname.rsplit("::", 2)[-2], "%s never tests for thread_stacksize::current" % f.qname)
+            continue
+        cur_atom = CUR if CUR in leaves else [l for l in leaves if "thread_stacksize::current" in l][0]
+        bad = []
+        npaths = 0
+        for evs, end in eval_walk(f, f.entry, atom_env={cur_atom: True}):
+            seq = [e for _, _, e in evs]
+            sinks = [k_ for k_, e in enumerate(seq) if is_sink(e)]
+            if not sinks:
+                continue
+            npaths += 1
+            res = [k_ for k_, e in enumerate(seq) if is_res(e)]
+            if not res or min(res) > min(sinks):
+                bad.append(loc_of(seq[min(sinks)]))
+        if npaths == 0:
+            raise AnalysisBroken("%s: no path to a staging / creation site found" % f.qname)
+        if bad:
+            rep.bad("C12.R3", f, bad[0], "current-unresolved:" + f.qname.rsplit("::", 2)[-2], "%s stages / creates a task whose stack size class is still 'current' "
+                    "(reached %s without data.stacksize = get_self_stacksize_enum()): the class is then resolved by whoever converts the task - a worker's "
+                    "scheduling loop - and the task runs on a stack of the wrong (small) size" % (f.qname, sorted(set(bad))))
+        else:
+            rep.ok("C12.R3", f, "%s resolves 'current' to the creator's class before staging or creating the task (%d paths)" % (f.qname.rsplit("::", 2)[-2], npaths), sites=npaths)
